@@ -451,6 +451,9 @@ package main
 //@   modifies inferred
 //@   ensures [C06] tags_owner_only: t.cat == types.TopicCatGrp && old(t.owner) != asUid ==> err != nil && ref(t.tags) == old(ref(t.tags)) && len(t.tags) == old(len(t.tags))
 //@   assert at call store.TopicsPersistenceInterface.Update [C06] tags_store_owner_only: t.cat == types.TopicCatGrp && t.owner == asUid
+//@   assert at call store.TopicsPersistenceInterface.Update [C19] restricted_unchanged: restrictedTagsSame
+//@   assert at call store.UsersPersistenceInterface.Update [C19] restricted_unchanged_me: restrictedTagsSame
+//@   ensures [C19] cache_follows_check: ref(t.tags) != old(ref(t.tags)) ==> restrictedTagsSame && err == nil
 
 //@ func (t *Topic) replySetDesc(sess *Session, asUid types.Uid, asChan bool, authLevel auth.Level, msg *ClientComMessage) (err error)
 //@   requires t != nil && sess != nil && msg != nil && msg.Set != nil
@@ -543,3 +546,30 @@ package main
 // parseSearchQuery and the reference verifRefParseSearch (zz_verif_spec.go) are executed on every string of length
 // <= 7 over the alphabet {a, b, space, comma, double quote}: 97656 queries.
 //@ bounded [C19] search_query_language: n int in 0..97655 :: verifSearchAgrees(verifNthString(n, "ab ,\""))
+
+// C19: a 'fnd' search reaches the store only after the masked-namespace filter has looked at every required and every
+// optional term and found none that the searcher does not carry, and ordinary users search active records only.
+//@ func (t *Topic) replyGetSub(sess *Session, asUid types.Uid, authLevel auth.Level, asChan bool, msg *ClientComMessage) (err error)
+//@   requires [C19] t != nil && sess != nil && msg != nil && msg.Get != nil
+//@   modifies *
+//@   assert at call filterRestrictedTags [C19] covers_all_terms: len($1) == len(allReq) + len(opt) && $2 == globals.maskedTagNS
+//@   assert at call store.UsersPersistenceInterface.FindSubs [C19] masked_checked: len(restr) == 0
+//@   assert at call store.UsersPersistenceInterface.FindSubs [C19] same_terms: ref($2) == ref(req) && len($2) == len(req) && ref($3) == ref(opt) && len($3) == len(opt)
+//@   assert at call store.UsersPersistenceInterface.FindSubs [C19] active_only: $4 == (sess.authLvl != auth.LevelRoot)
+
+// Tags are set only after the restricted-namespace comparison with the current tags succeeded, and what is stored
+// is the normalised list.
+//@ ghost var restrictedTagsSame bool
+//@ func restrictedTagsEqual(oldTags []string, newTags []string, namespaces map[string]bool) (same bool)
+//@   trusted
+//@   modifies restrictedTagsSame
+//@   ensures restrictedTagsSame == same
+
+// The number of stored tags never exceeds the configured maximum (nor the number supplied).
+//@ func normalizeTags(src []string) (res types.StringSlice)
+//@   requires [C19,assumed] configured: globals.maxTagCount >= 0
+//@   modifies inferred
+//@   ensures [C19] bounded_count: len(res) <= globals.maxTagCount && len(res) <= old(len(src))
+//@   safe
+//@   loop 2
+//@     invariant [C19] count: len(dst) <= #idx && #idx <= len(src)
